@@ -903,14 +903,17 @@ func waitShutdown(c *grpc.ClientConn, d time.Duration) {
 	}
 }
 
-// raceProbe: first calls for one backend arriving together.  Get reads the map, misses,
-// dials and stores; nothing makes the miss and the store one step, so several callers can
-// each dial and all but the last stored connection are known to nobody but their caller.
+// raceProbe: first calls for one backend arriving together.  Get reads the map under the read
+// lock, dials, and stores through setIfAbsent (one critical section that keeps an already
+// pooled live connection and closes the newcomer; /repo 8fc2c4a).  Expected for every
+// interleaving (C16_concurrent_gets_converge): all callers are handed the one pooled
+// connection, and after an empty table and a tick every connection dialled is in Shutdown.
+// Before 8fc2c4a each caller stored its own connection and all but the last were orphaned.
 func raceProbe(run *vh.Run, backends []*backend) {
 	pu, _ := url.Parse(backends[0].url)
-	orphans, rounds := 0, 0
-	for rounds < 40 && orphans == 0 {
-		rounds++
+	rounds := run.Scale(12, 60)
+	orphans, split, multiDial := 0, 0, 0
+	for round := 0; round < rounds; round++ {
 		pool := proxy.VerifC16NewPool(nil, newCfg(0, false))
 		const w = 8
 		got := make([]*grpc.ClientConn, w)
@@ -933,29 +936,40 @@ func raceProbe(run *vh.Run, backends []*backend) {
 			}
 		}
 		var pooled *grpc.ClientConn
-		for _, c := range pool.Snapshot() {
+		snap := pool.Snapshot()
+		for _, c := range snap {
 			if distinct[c] {
 				pooled = c
 			}
 		}
-		// an empty table and a tick: the pooled connection is closed, the others are not
+		if len(distinct) != 1 || pooled == nil || len(snap) != 1 {
+			split++
+		}
+		// an empty table and a tick: whatever was handed out must end up closed
 		route.SetTable(route.Table{})
 		tick(pool)
-		if pooled != nil {
-			waitShutdown(pooled, 2*time.Second)
-		}
-		time.Sleep(5 * time.Millisecond)
 		for c := range distinct {
-			if c != pooled && c.GetState() != connectivity.Shutdown {
+			waitShutdown(c, 2*time.Second)
+		}
+		for c := range distinct {
+			if c.GetState() != connectivity.Shutdown {
 				orphans++
 			}
 			c.Close()
 		}
+		if len(distinct) > 1 {
+			multiDial++
+		}
 	}
 	run.Notes["race_probe_rounds"] = rounds
 	run.Notes["race_probe_orphans"] = orphans
+	run.Notes["race_probe_callers_not_sharing"] = split
+	if split > 0 {
+		run.Violation(-1, fmt.Sprintf("concurrent first calls for one backend: in %d of %d rounds the 8 callers were not all handed the one pooled connection", split, rounds),
+			map[string]interface{}{"callers": 8, "rounds": rounds})
+	}
 	if orphans > 0 {
-		run.Violation(-1, fmt.Sprintf("concurrent first calls for one backend: %d connection(s) dialled, returned to a caller, overwritten in the pool and never closed by cleanup (orphaned)", orphans),
+		run.Violation(-1, fmt.Sprintf("concurrent first calls for one backend: %d connection(s) handed to a caller were still open after the backend left the table and a cleanup tick ran (not pooled, never closed)", orphans),
 			map[string]interface{}{"callers": 8, "rounds": rounds})
 	}
 }
